@@ -876,6 +876,14 @@ class Interp:
                     and isinstance(vals[0].value, (str, bytes, type(None))) \
                     and (fi.module, name) not in self.unstable:
                 return const(vals[0].value)
+            # a compiled pattern kept in a module-level constant is the pattern
+            if len(vals) == 1 and isinstance(vals[0], ast.Call) \
+                    and dotted(vals[0].func) in ("re.compile", "_re.compile") \
+                    and (fi.module, name) not in self.unstable:
+                try:
+                    return self.expr(vals[0], Env(), fi)
+                except Exception:  # noqa: BLE001
+                    pass
             return ("glob", f"{fi.module}.{name}")
         imp = mod.imports.get(name)
         if imp and imp[0] == "name" and imp[1].startswith("psutil."):
